@@ -36,7 +36,7 @@ ASSUMPTIONS = [
     'observation outside this property (not checked, reported to the integrator): hermitian_conjugated(InteractionOperator) with real-dtype tensors returns tensors that SHARE MEMORY with the argument (ndarray.T.conj() of a real array is a view), so editing the conjugate in place edits the original',
     'operators are in the state their class maintains (QubitOperator terms index-sorted, BosonOperator / QuadOperator terms index-sorted by the constructor, Majorana terms strictly increasing); `terms` dictionaries edited by hand into other shapes are out of scope',
     'comparisons whose decision has a relative margin < 1e-9 (where double rounding of abs / multiplication could matter) are discarded and counted, never compared',
-    'is_hermitian / hermitian_conjugated of dense and sparse matrices: covered for every dtype plain numpy / scipy subtraction accepts (is-hermitian-matrix stream: Model tie + exact entry-wise statement)',
+    'is_hermitian / hermitian_conjugated of dense and sparse matrices: covered for every dtype plain numpy / scipy subtraction accepts (is-hermitian-matrix stream: Model tie + exact entry-wise statement; the Model is proved equal to the entry-wise statement: is_hermitian_matrix_iff)',
 ]
 OPEN_STATEMENTS = [
     'commutes_with general path: proved in the exact regime (commutes_with_general_iff: the hypothesis is the decidable test majExactB that the driver evaluates per input and the harness counts; commutes_with_general_iff_partial keeps the abstract form) using Majorana canonicity (majorana_strings_independent); that the Model product mmul has the matrix elements of the product of the denoted operators is C01.mul_hom_majorana; outside the exact regime only the spec.eq oracle',
